@@ -262,7 +262,7 @@ pub fn check(runner: &mut Runner, case: &mut ExecCase, st: Option<&mut Stats>) -
 fn run(ctx: &Ctx) {
     let runner = RefCell::new(Runner::new());
     ctx.shrink_iters.set(3000);
-    let cases = ctx.share(ctx.tier.pick(32_000, 960_000));
+    let cases = ctx.share(ctx.tier.pick(128_000, 2_560_000));
     ctx.search("callgraph", "exec", cases, cprog(), |p, want_case| {
         let mut case = lower(p);
         let mut st = ctx.stats();
